@@ -577,3 +577,96 @@ Definition compile_case (x : sx) : sx :=
       else Sym (s_ "decode-error")
   | _ => Sym (s_ "decode-error")
   end.
+
+(* ---------- from compiler output to a VM program ---------- *)
+(* UTF-8 encoding of a code point (Go string constants are byte strings);
+   values >= 0x110000 stand for raw bytes (Base conventions) *)
+Definition utf8_cp (c : N) : list N :=
+  (if c <? 128 then [c]
+   else if c <? 2048 then [192 + c / 64; 128 + c mod 64]
+   else if c <? 65536 then [224 + c / 4096; 128 + (c / 64) mod 64; 128 + c mod 64]
+   else if c <? 1114112 then [240 + c / 262144; 128 + (c / 4096) mod 64; 128 + (c / 64) mod 64; 128 + c mod 64]
+   else [(c - 1114112) mod 256])%N.
+Definition utf8_encode (s : str) : list N := flat_map utf8_cp s.
+
+Definition const_value (k : cconst) : value :=
+  match k with KNum f => VNum f | KStr s => VStr (utf8_encode s) end.
+
+Definition program_of (bc : cbytecode) : program :=
+  {| pcode := out_code bc; pconsts := map const_value (out_consts bc);
+     pgcount := out_gcount bc; plcount := out_lcount bc |}.
+
+(* ---------- a direct big-step semantics of the expression fragment ---------- *)
+(* literals, global variables, unary and binary operators on numbers, strings
+   and booleans; numbers are IEEE binary64 (Coq primitive floats).  [None]:
+   outside the fragment, a dynamic type that contradicts the static
+   annotation, or a division/modulo by zero (an error on the VM). *)
+Definition genv := str -> option value.
+
+Definition eval_binop (op : binop) (lt rt : ety) (a b : value) : option value :=
+  match op with
+  | BEq | BNe =>
+      let r := match a, b with
+               | VNum x, VNum y => Some (PrimFloat.eqb x y)
+               | VBool x, VBool y => Some (Bool.eqb x y)
+               | VStr x, VStr y => Some (str_eqb x y)
+               | _, _ => None
+               end in
+      match r, op with
+      | Some t, BEq => Some (VBool t)
+      | Some t, _ => Some (VBool (negb t))
+      | None, _ => None
+      end
+  | _ =>
+      match lt, rt, a, b with
+      | TNum, TNum, VNum x, VNum y =>
+          match op with
+          | BPlus => Some (VNum (x + y)) | BMinus => Some (VNum (x - y)) | BStar => Some (VNum (x * y))
+          | BSlash => if PrimFloat.eqb y 0 then None else Some (VNum (x / y))
+          | BPercent => if PrimFloat.eqb y 0 then None else Some (VNum (float_mod x y))
+          | BLt => Some (VBool (PrimFloat.ltb x y)) | BLe => Some (VBool (PrimFloat.leb x y))
+          | BGt => Some (VBool (PrimFloat.ltb y x)) | BGe => Some (VBool (PrimFloat.leb y x))
+          | _ => None
+          end
+      | TStr, TStr, VStr x, VStr y =>
+          match op with
+          | BPlus => Some (VStr (x ++ y))
+          | BLt => Some (VBool (str_ltb x y)) | BLe => Some (VBool (negb (str_ltb y x)))
+          | BGt => Some (VBool (str_ltb y x)) | BGe => Some (VBool (negb (str_ltb x y)))
+          | _ => None
+          end
+      | _, _, _, _ => None
+      end
+  end.
+
+Fixpoint eval_expr (env : genv) (e : expr) : option value :=
+  match e with
+  | ENum f => Some (VNum f)
+  | EBool b => Some (VBool b)
+  | EStr s => Some (VStr (utf8_encode s))
+  | EVar n => env n
+  | EGroup e1 => eval_expr env e1
+  | EUn UMinus e1 => match eval_expr env e1 with Some (VNum f) => Some (VNum (- f)) | _ => None end
+  | EUn UBang e1 => match eval_expr env e1 with Some (VBool b) => Some (VBool (negb b)) | _ => None end
+  | EBin op lt rt l r =>
+      match eval_expr env l, eval_expr env r with
+      | Some a, Some b => eval_binop op lt rt a b
+      | _, _ => None
+      end
+  | _ => None
+  end.
+
+(* the most stack slots the code of e needs above its starting height *)
+Fixpoint edepth (e : expr) : N :=
+  match e with
+  | EGroup e1 | EUn _ e1 => edepth e1
+  | EBin _ _ _ l r => N.max (edepth l) (1 + edepth r)
+  | _ => 1
+  end.
+
+(* n loop iterations of Run *)
+Fixpoint vm_steps (n : nat) (p : program) (s : vmstate) : outcome :=
+  match n with
+  | O => Running s
+  | S k => match vm_step p s with Running s' => vm_steps k p s' | o => o end
+  end.
